@@ -6,16 +6,18 @@ CONSTANTS
   InitSub = {}
   Kinds = {"tools"}
   NotifOf <- NotifStd
-  Uris = {"u1"}
+  Uris = {}
   Want <- WantAll
   CapOff = {}
   TTLPos = FALSE
   D = 0
   MaxTime = 0
   MaxChanges = 2
-  MaxUpdates = 1
+  MaxUpdates = 0
   MaxCalls = 2
+  NPages = 2
   ModernUnsub = FALSE
+  ForeignUnsub = FALSE
   Stepwise = FALSE
   Gates = FALSE
   GateNames = {"inv", "usr", "put"}
